@@ -3,8 +3,8 @@
 # wasm_exec_node.js:   wasm_exec.sh <binary.wasm> [arguments...]
 #
 # Arguments, working directory and exit status are passed through.  The
-# environment is reduced to what the program needs (VERIF_*, GO*, PATH, HOME,
-# TMPDIR, ...) because wasm_exec.js places argv+environment in a fixed 8 KiB
+# environment is reduced to what the program needs (every VERIF_* variable, PATH,
+# HOME, TMPDIR) because wasm_exec.js places argv+environment in a fixed 8 KiB
 # area and aborts when they do not fit.  Node's fs backs Go's js/wasm syscall
 # layer, so the program reads and writes files under /verif normally.
 
